@@ -244,6 +244,88 @@ def shift_cases(rng, adversarial=False, probe=False):
     return [(line, 'ok', dict(meta, page_index=index), tags, stats) for index, (line, stats) in enumerate(pages)]
 
 
+# ---------------------------------------------------------------------------------------------
+# metamorphic pair "neutral wrapper div" (same comparator, translation (0, 0))
+
+def wrapped_html(html):
+    """The same document with the content of <body> wrapped in a plain <div> (no margin, border, padding, auto
+    width and height, everything inherited)."""
+    import re
+    out, n = re.subn(r'<body>(.*)</body>', lambda m: '<body><div>' + m.group(1) + '</div></body>', html, 1,
+                     flags=re.S)
+    if n != 1:
+        raise ValueError('no <body>…</body>')
+    return out
+
+
+def tall_html(html):
+    """One tall page: the wrapper pair is stated for unfragmented content."""
+    import re
+    return re.sub(r'@page\{size:(\d+)px \d+px', lambda m: f'@page{{size:{m.group(1)}px 3000px', html, 1)
+
+
+def wrap_line(html):
+    """Render `html` and its wrapped twin -> (line, stats) comparing the <body> subtree of the first with the
+    wrapper <div> subtree of the second (the wrapper must have exactly the geometry of <body>, whose margins are 0,
+    and every descendant must stay where it was), or None when the first rendering is not a single page, or a
+    string describing a page-count / shape change."""
+    from harness import docs
+    first = docs.render(html)
+    if len(first.pages) != 1:
+        return None
+    second = docs.render(wrapped_html(html))
+    if len(second.pages) != 1:
+        return f'pages 1 {len(second.pages)}'
+    (line_a, stats), (line_b, _) = page_lines(first)[0], page_lines(second)[0]
+    root_a, root_b = sx.loads_line(line_a)[5], sx.loads_line(line_b)[5]
+    try:
+        body_a = root_a[1][0]
+        wrapper_b = root_b[1][0][1][0]
+    except (IndexError, TypeError):
+        return 'shape'
+    return sx.line('shifted', EPS, 0, 0, body_a, wrapper_b), stats
+
+
+def wrap_cases(rng, adversarial=False, probe=False):
+    """One document on a tall page, rendered with and without a neutral wrapper -> [(line, impl, meta, tags, stats)]
+    (empty when the document needs more than one page: forced breaks)."""
+    from harness import docs, widegen
+    doc = position_doc(rng) if probe else widegen.gen(rng, adversarial=adversarial)
+    html = tall_html(doc['html'])
+    rtl = rng.random() < .35
+    if rtl:
+        html = html.replace('body{font-size', 'body{direction:rtl;font-size', 1)
+    meta = {'html': html, 'rtl': rtl, 'features': doc['features'], 'page_index': 0}
+    try:
+        with docs.time_limit(30):
+            res = wrap_line(html)
+    except Exception as exc:  # noqa: BLE001
+        return [(None, None, dict(meta, error=type(exc).__name__), ['render-error'], {})]
+    tags = list(doc['features']) + ['rtl' if rtl else 'ltr']
+    if res is None:
+        return []
+    if isinstance(res, str):
+        return [(sx.line('shifted', EPS, 0, 0, [], []), res, meta, tags, {'flow': 0})]
+    line, stats = res
+    return [(line, 'ok', meta, tags, stats)]
+
+
+def explain_wrap(line, impl, model_out):
+    if impl != 'ok':
+        return (f'metamorphic pair "neutral wrapper div": wrapping the content of <body> in a plain <div> changes the '
+                f'page count or the shape of the tree ({impl})')
+    parts = sx.loads_line(line)
+    if model_out == 'bad shape':
+        return (f'metamorphic pair "neutral wrapper div": the subtree of the wrapper does not have the shape of the '
+                f'subtree of <body> ({len(flat(parts[4]))} boxes, then {len(flat(parts[5]))})')
+    index = int(model_out.split()[2])
+    a, b = flat(parts[4])[index], flat(parts[5])[index]
+    moved = [(name, str(F(x)), str(F(y))) for name, x, y in zip(FIELDS, a[:16], b[:16]) if F(x) != F(y)]
+    return (f'metamorphic pair "neutral wrapper div": box #{index} below <body> (kind {a[24]}; #0 is <body> itself '
+            f'against the wrapper) changes when the content of <body> is wrapped in a plain <div>; fields that differ '
+            f'(name, without, with the wrapper): {moved}')
+
+
 def explain_shift(line, impl, model_out):
     """Human-readable description of a translation failure."""
     parts = sx.loads_line(line)
